@@ -451,6 +451,9 @@ def worker(args):
             model.close()
         st["sig"] = sig(lines)
         st["deep"] = deep
+        if not stats:
+            # one written-out case per worker for the evidence file
+            st["script_head"] = lines[:14] + (["... (%d more lines)" % (len(lines) - 14)] if len(lines) > 14 else [])
         if st["model_fault"]:
             # the model (proved never to fault on valid scripts) faulted: generator or model bug, report as mismatch
             bad.append((lines, {"index": len(lines) - 1, "op": lines[-1], "impl": "(not run)", "model": answers[-1],
